@@ -270,11 +270,11 @@ class dhcp(packet_base):
         o = b''
         def addPart (k, v):
             o = b''
-            o += chr(k)
-            o += chr(len(v))
+            o += bytes([k])
+            o += bytes([len(v)])
             o += bytes(v)
             if len(o) & 1: # Length is not even
-                o += chr(dhcp.PAD_OPT)
+                o += bytes([dhcp.PAD_OPT])
             return o
 
         for k,v in self.options.items():
@@ -290,7 +290,7 @@ class dhcp(packet_base):
                     o += addPart(k, part)
             else:
                 o += addPart(k, v)
-        o += chr(dhcp.END_OPT)
+        o += bytes([dhcp.END_OPT])
         self._raw_options = o
 
         if isinstance(self.options, util.DirtyDict):
@@ -329,12 +329,12 @@ class dhcp(packet_base):
         to add them to the .options dictionary.
         """
 
-        self._raw_options += chr(code)
+        self._raw_options += bytes([code])
         if length is None:
             if val is None:
                 return
             length = len(val)
-        self._raw_options += chr(length)
+        self._raw_options += bytes([length])
         self._raw_options += val
 
     @property
@@ -489,7 +489,7 @@ class DHCPMsgTypeOption (DHCPOption):
     return self
 
   def pack (self):
-    return chr(self.type)
+    return bytes([self.type])
 
   def __repr__ (self):
     t = {
@@ -557,7 +557,7 @@ class DHCPOptionOverloadOption (DHCPOption):
     return self
 
   def pack (self):
-    return chr(self.value)
+    return bytes([self.value])
 
   def __repr__ (self):
     return "%s(%s)" % (self._name, self.value)
@@ -591,7 +591,7 @@ class DHCPParameterRequestOption (DHCPOption):
 
   def pack (self):
     opt = ((o.CODE if is_subclass(o, DHCPOption) else o) for o in self.options)
-    return b''.join(chr(x) for x in opt)
+    return bytes(opt)
 
   def __repr__ (self):
     names = []
